@@ -46,3 +46,13 @@ From TrV Require Import Proofs.FwdOpt.
 Theorem C08_full_declarative : C08_decl_statement.
 Proof. exact C08_decl_proved. Qed.
 Print Assumptions C08_full_declarative.
+
+Theorem C08_forward_allnodes_scan_is_code : forall d p k, fwdall_scan_code d p k = fwd_scan d p k true.
+Proof. exact fwdall_scan_tie. Qed.
+Print Assumptions C08_forward_allnodes_scan_is_code.
+
+(* the ORIGINAL formal statement (map = reference map AS LISTS, order along the stop list included) *)
+From TrV Require Import Proofs.FullStatements.
+Theorem C08_full : C08_full_statement.
+Proof. exact C08_original. Qed.
+Print Assumptions C08_full.
